@@ -16,10 +16,12 @@ def sched_from_hist(s):
         n = a["a"]
         if n == "WritePart":
             ops.append({"op": "W", "n": 0})
-        elif n in ("Take", "DrainStep", "Spill"):
+        elif n in ("Take", "Spill", "FlushDone"):
             ops.append({"op": "R", "n": 1})
+        elif n == "DrainStep":
+            pass   # channel -> bufio memory: no disk operation of its own
         elif n == "Tick":
-            ops.append({"op": "T", "n": 0})
+            ops.append({"op": "K", "n": 0})   # the ticker fires with the disk as it is (possibly stalled)
         elif n == "CallFlush":
             ops.append({"op": "F", "n": 0})
         elif n == "CallClose":
